@@ -149,8 +149,9 @@ def parse_R(out):
 
 
 def coqc_case(path):
-    rc, out = sh(["coqc", "-Q", COQ, "Zog", "-w", "-notation-overridden,-deprecated-syntactic-definition,-deprecated,-abstract-large-number", os.path.basename(path)],
-                 cwd=os.path.dirname(path), timeout=900)
+    # (a memory bound as well as a time bound: a runaway evaluation must not take the machine down)
+    rc, out = sh("ulimit -v 12000000; exec coqc -Q %s Zog -w -notation-overridden,-deprecated-syntactic-definition,-deprecated,-abstract-large-number %s" % (COQ, os.path.basename(path)),
+                 cwd=os.path.dirname(path), timeout=600)
     return path, rc, out
 
 
@@ -201,21 +202,44 @@ def load_known():
     return json.load(open(p)).get("findings", [])
 
 
+def extract_case(outdir, cid):
+    """Finds the Gallina term of case `cid` in the cases_*.v files of a family run."""
+    for f in sorted(glob.glob(os.path.join(outdir, "cases_*.v"))):
+        txt = open(f).read()
+        m = re.search(r"^(.*?)Definition cases : list (\w+) := \[\n(.*)\n\]\.\nDefinition R", txt, flags=re.S)
+        if not m:
+            continue
+        header, typ, body = m.group(1), m.group(2), m.group(3)
+        for term in body.split(";\n  ("):
+            t = term if term.startswith("  (") else "  (" + term
+            if re.search(r"\b(EC|PC|NC|HD|HU|BC|KC|FC|LC|DC) %d\b" % cid, t):
+                return t, header, typ
+    return None, None, None
+
+
 def write_replay(pid, fam, seed, tier, cid, tags, detail=""):
     os.makedirs(os.path.join(WORK, pid), exist_ok=True)
     path = os.path.join(WORK, pid, "replay_%s_%s.json" % (fam["name"], cid))
     rep = dict(property=pid, family=fam["family"], family_name=fam["name"], profile=fam.get("profile", "default"), seed=seed, tier=tier,
                n=fam["thorough"] if tier == "thorough" else fam["quick"], case_id=cid, failed_projections=tags, detail=detail,
                rerun="./check %s --replay %s" % (pid, path))
-    # re-run just this case to capture the term and the model's explanation
+    # capture the very case that failed (term + what the implementation did) from the run's case files
+    # and let Coq print the model's outcome next to it
     try:
-        rr = run_family(pid, fam, tier, seed, ids=[cid], outdir=os.path.join(WORK, pid, "replay_%s_%s.d" % (fam["name"], cid)))
-        cf = sorted(glob.glob(os.path.join(rr["outdir"], "cases_*.v")))
-        if cf:
-            rep["case_gallina"] = open(cf[0]).read()[:60000]
-        rep["model_vs_implementation"] = rr.get("explain", "")[:30000]
-        for extra in sorted(glob.glob(os.path.join(rr["outdir"], "*.txt"))):
-            rep.setdefault("harness_notes", {})[os.path.basename(extra)] = open(extra).read()[:20000]
+        src_dir = os.path.join(WORK, pid, fam["name"])
+        term, header, typ = extract_case(src_dir, cid)
+        if term:
+            d = os.path.join(WORK, pid, "replay_%s_%s.d" % (fam["name"], cid))
+            shutil.rmtree(d, ignore_errors=True)
+            os.makedirs(d)
+            body = header + "Definition cases : list " + typ + " := [\n" + term + "\n].\n"
+            if typ == "ecase":
+                body += "Definition R := Eval vm_compute in check_all cases.\nPrint R.\nDefinition X := Eval vm_compute in explain cases.\nPrint X.\n"
+            open(os.path.join(d, "case.v"), "w").write(body)
+            rep["case_gallina"] = body[:60000]
+            if typ == "ecase":
+                _, rc, out = coqc_case(os.path.join(d, "case.v"))
+                rep["model_vs_implementation"] = out[-30000:]
     except Exception as e:  # noqa
         rep["replay_capture_error"] = str(e)
     json.dump(rep, open(path, "w"), indent=1)
